@@ -140,7 +140,7 @@ impl Number {
         if !exp.dimless() {
             return Err("Exponent must be dimensionless".to_string());
         }
-        if exp.value.abs() >= Numeric::from(1 << 31) {
+        if !(exp.value.abs() < Numeric::from(1 << 31)) {
             return Err("Exponent is too large".to_string());
         }
         let (num, den) = exp.value.to_rational();
@@ -172,7 +172,7 @@ impl Number {
         if !exp.dimless() {
             return Err("Right-hand to << must be dimensionless".to_string());
         }
-        if exp.value.abs() >= Numeric::from(1 << 31) {
+        if !(exp.value.abs() < Numeric::from(1 << 31)) {
             return Err("Right-hand to << is too large".to_string());
         }
         let (num, den) = exp.value.to_rational();
@@ -196,7 +196,7 @@ impl Number {
         if !exp.dimless() {
             return Err("Right-hand to >> must be dimensionless".to_string());
         }
-        if exp.value.abs() >= Numeric::from(1 << 31) {
+        if !(exp.value.abs() < Numeric::from(1 << 31)) {
             return Err("Right-hand to >> is too large".to_string());
         }
         let (num, den) = exp.value.to_rational();
